@@ -45,10 +45,20 @@ DimOf(ww, e) ==
 
 ClauseNames == {"Completed", "PolyOrder", "CentreOrder", "RavelOrder", "SelectOrder", "SelectAbsent", "HitsArePositions",
                 "IffIntersects", "LowestIndex", "Coherent", "NeverAHole", "SelectPointMatches",
-                "IndexesValues", "IndexesAbsent", "DtypeKept", "PointsError", "PointsDrop", "PointsFill", "FrameColumns"}
+                "IndexesValues", "IndexesAbsent", "DtypeKept", "PointsError", "PointsDrop", "PointsFill", "FrameColumns",
+                "ExportCells", "ExportIndexes",
+                "PatchPerValidCell", "ValuePairs", "ClimSpansValues", "OverridesRespected", "Refused", "QuiverPairs"}
+
+\* the valid cells in ascending linear order (0-based linear indexes)
+ValidSeq == SelectSeq([n \in 1..Len(polys) |-> n - 1], LAMBDA n : polys[n + 1] # <<>>)
+PlotVar(ww, e) == ww.vars[VarByName(ww, e.var)]
+IsPlottable(v) == OnGrid(v) /\ Len(v.dims) = Len(v.gridpos)      \* no leftover dimensions
+FaceTag(ww, v, n) == Tag(ww, v, <<>>, n)
+NonMissing(S) == {x \in S : x # MISSING}
 
 Clause(name, ww, e) ==
   CASE name = "Completed" -> Ok(e) \/ e.a \in {"SelectPoint", "SelectPoints", "ExtractDF"}
+                             \/ (e.a \in {"PolyCollection", "Quiver"} /\ e.refuse # "")
     \* ------------------------------------------------------------ C02
     [] name = "PolyOrder" ->
          Is(e, "Polygons") =>
@@ -136,6 +146,57 @@ Clause(name, ww, e) ==
     [] name = "FrameColumns" ->
          (Is(e, "ExtractDF")) => e.obs.ok.cols = e.expectcols
 
+    \* ------------------------------------------------------------ C15
+    [] name = "ExportCells" ->
+         (Is(e, "Export") /\ clean) =>
+            /\ Len(e.obs.ok.features) = Len(ValidSeq)              \* exactly the cells that have polygons
+            /\ \A k \in 1..Len(e.obs.ok.features) :               \* in linear order, identical coordinates
+                 k <= Len(ValidSeq) => SameRing(e.obs.ok.features[k].coords, polys[ValidSeq[k] + 1])
+    [] name = "ExportIndexes" ->
+         (Is(e, "Export") /\ clean /\ e.fmt \in {"geojson", "shapefile"}) =>
+            \A k \in 1..Len(e.obs.ok.features) :
+               LET f == e.obs.ok.features[k]
+               IN /\ k <= Len(ValidSeq) => f.linear = ValidSeq[k]
+                  /\ LinearInRange(ww, "face", f.linear)
+                  /\ f.native = WindIndex(ww, "face", f.linear)           \* both indexes name the same cell ...
+                  /\ SameRing(f.coords, polys[f.linear + 1])              \* ... and it is this feature's cell
+    \* ------------------------------------------------------------ C19
+    [] name = "PatchPerValidCell" ->
+         (Is(e, "PolyCollection") /\ clean) =>
+            /\ Len(e.obs.ok.paths) = Len(ValidSeq)
+            /\ \A k \in 1..Len(e.obs.ok.paths) : k <= Len(ValidSeq) => SameRing(e.obs.ok.paths[k], polys[ValidSeq[k] + 1])
+    [] name = "ValuePairs" ->
+         (Is(e, "PolyCollection") /\ clean /\ e.var # "" /\ e.refuse = "") =>
+            /\ e.obs.ok.hasarray
+            /\ e.obs.ok.array = [k \in 1..Len(ValidSeq) |-> FaceTag(ww, PlotVar(ww, e), ValidSeq[k])]
+    [] name = "ClimSpansValues" ->
+         (Is(e, "PolyCollection") /\ clean /\ e.var # "" /\ e.refuse = "" /\ Len(e.clim) = 0) =>
+            LET vals == NonMissing({FaceTag(ww, PlotVar(ww, e), ValidSeq[k]) : k \in 1..Len(ValidSeq)})
+            IN vals # {} => e.obs.ok.clim = <<SetMin(vals), SetMax(vals)>>
+    [] name = "OverridesRespected" ->
+         Is(e, "PolyCollection") =>
+            /\ (Len(e.clim) = 2 => e.obs.ok.clim = e.clim)
+            /\ (e.var = "" /\ Len(e.array) > 0 => e.obs.ok.array = e.array)
+            /\ (e.var = "" /\ Len(e.array) = 0 => ~e.obs.ok.hasarray)
+            /\ e.obs.ok.transform = (IF e.transform THEN "given" ELSE "default")
+    [] name = "Refused" ->
+         \* leftover non-spatial dimensions, or data_array together with array=
+         (e.a \in {"PolyCollection", "Quiver"} /\ e.refuse # "") => "err" \in DOMAIN e.obs
+    [] name = "QuiverPairs" ->
+         (Is(e, "Quiver") /\ e.refuse = "") =>
+            /\ Len(e.obs.ok.xy) = Len(polys)
+            /\ \A n \in 1..Len(polys) :
+                 LET c == CentreAt(ww, n - 1)
+                 IN (c # <<NANQ, NANQ>> \/ ~IsUGrid(ww)) => e.obs.ok.xy[n] = c
+            \* an arrow is masked iff one of its components is missing; otherwise it carries its own cell's components
+            /\ IF e.u = "" THEN \A n \in 1..Len(e.obs.ok.mask) : e.obs.ok.mask[n]
+               ELSE /\ Len(e.obs.ok.u) = Len(polys) /\ Len(e.obs.ok.v) = Len(polys) /\ Len(e.obs.ok.mask) = Len(polys)
+                    /\ \A n \in 1..Len(polys) :
+                         LET tu == FaceTag(ww, ww.vars[VarByName(ww, e.u)], n - 1)
+                             tv == FaceTag(ww, ww.vars[VarByName(ww, e.v)], n - 1)
+                         IN /\ e.obs.ok.mask[n] = (tu = MISSING \/ tv = MISSING)
+                            /\ ~e.obs.ok.mask[n] => (e.obs.ok.u[n] = tu /\ e.obs.ok.v[n] = tv)
+
 Failing(ww, e) == {name \in ClauseNames : ~Clause(name, ww, e)}
 
 SeenOf(ww, e) ==
@@ -153,6 +214,13 @@ SeenOf(ww, e) ==
   \cup (IF "default_dim" \in DOMAIN e /\ DimOf(ww, e) \notin {"index", "point"} THEN {"default-dim-collision"} ELSE {})
   \cup (IF e.a \in {"SelectPoints", "ExtractDF"} /\ "err" \in DOMAIN e.obs THEN {"points-error-raised"} ELSE {})
   \cup (IF e.a \in {"SelectIndex", "SelectIndexes"} THEN {"kind-" \o e.kind} ELSE {})
+  \cup (IF e.a = "Export" THEN {"fmt-" \o e.fmt} ELSE {})
+  \cup (IF e.a \in {"PolyCollection", "Quiver"} /\ e.refuse # "" THEN {"refuse-" \o e.refuse} ELSE {})
+  \cup (IF e.a = "PolyCollection" /\ Len(e.clim) = 2 THEN {"clim-override"} ELSE {})
+  \cup (IF e.a = "PolyCollection" /\ e.transform THEN {"transform-override"} ELSE {})
+  \cup (IF e.a = "PolyCollection" /\ e.var = "" /\ Len(e.array) > 0 THEN {"array-override"} ELSE {})
+  \cup (IF e.a = "PolyCollection" /\ e.var # "" THEN {"mode-" \o e.mode} ELSE {})
+  \cup (IF e.a = "Quiver" /\ e.u = "" THEN {"quiver-empty"} ELSE {})
   \cup (IF e.a = "SelectIndexes" /\ \E a, b \in 1..Len(e.ns) : a # b /\ e.ns[a] = e.ns[b] THEN {"repeats"} ELSE {})
 
 Done == t > Len(Log)
